@@ -2,13 +2,15 @@
 """Run every staged/kept seeded change against the quick check of its own property (and optionally others);
 record which checks raise a VIOLATION.  Applies the patch to /repo and undoes it afterwards."""
 import json, os, subprocess, sys, re
-ST = "/verif/seeded/staging" if os.path.isdir("/verif/seeded/staging") and os.listdir("/verif/seeded/staging") else "/verif/seeded"
-EXTRA = {"C09-1": ["C07"], "C17-1": ["C15", "C04"], "C02-2": ["C14"], "C14-1": ["C02"], "C06-1": ["C05"], "C05-2": ["C06"], "C19-1": ["C07"], "C19-2": ["C07"], "C10-1": ["C15"],
+ST = os.environ.get("SEED_STAGING") or ("/verif/seeded/staging" if os.path.isdir("/verif/seeded/staging") and os.listdir("/verif/seeded/staging") else "/verif/seeded")
+OUT = os.environ.get("SEED_MATRIX_OUT", "/verif/work/seed_matrix.json")
+EXTRA = {"C02-r1": ["C01"], "C02-r2": ["C14"], "C14-r1": ["C01", "C15"], "C14-r2": ["C02"], "C15-r1": ["C10", "C14"], "C15-r2": ["C14", "C17"], "C05-r1": ["C01"], "C05-r2": ["C01"], "C03-r1": ["C07", "C13"], "C03-r2": ["C07"], "C01-r2": ["C02"],
+         "C09-1": ["C07"], "C17-1": ["C15", "C04"], "C02-2": ["C14"], "C14-1": ["C02"], "C06-1": ["C05"], "C05-2": ["C06"], "C19-1": ["C07"], "C19-2": ["C07"], "C10-1": ["C15"],
          "C08-1": ["C20"], "C08-2": ["C20"], "C20-1": ["C08"], "C20-2": ["C08"], "C11-1": ["C15"], "C15-1": ["C10"], "C04-2": ["C10"], "C06-2": ["C10"], "C03-2": ["C07"], "C13-1": ["C07"], "C12-1": ["C01"], "C12-2": ["C01"]}
 out = {}
 only = sys.argv[1:]
 for d in sorted(os.listdir(ST)):
-    if not re.match(r"C\d\d-\d", d) or (only and d not in only):
+    if not re.match(r"C\d\d-r?\d", d) or (only and d not in only):
         continue
     sd = os.path.join(ST, d)
     patch = os.path.join(sd, "patch.rebased.diff") if os.path.exists(os.path.join(sd, "patch.rebased.diff")) else os.path.join(sd, "patch.diff")
@@ -21,4 +23,4 @@ for d in sorted(os.listdir(ST)):
         res[chk] = {"exit": p.returncode, "violations": len(viol), "first": detail[0] if detail else ""}
         print(d, chk, "exit", p.returncode, len(viol), flush=True)
     out[d] = res
-    json.dump(out, open("/verif/work/seed_matrix.json", "w"), indent=1)
+    json.dump(out, open(OUT, "w"), indent=1)
